@@ -202,6 +202,8 @@ class Check:
     # ------------------------------------------------------------------ implementation workers
     def impl(self, worker, payload, timeout=900):
         """run vlib/workers/<worker>.py in a fresh interpreter (crash isolated)"""
+        with open(os.path.join(self.work, worker + "_payload.json"), "w") as f:
+            json.dump(payload, f)
         rc, out, err = sh([PY, os.path.join(VERIF, "vlib", "workers", worker + ".py")], timeout, cwd=self.work, inp=json.dumps(payload))
         lines = [l for l in out.splitlines() if l.startswith("RESULT ")]
         if rc != 0 or not lines:
